@@ -654,6 +654,87 @@ static void run_nested(vf::Ctx& c)
 	if (c.want_sample()) c.sample(c.curdesc());
 }
 
+// ------------------------------------------------------------------ allocation failure while growing (ASan build with a small max_allocation_size_mb)
+// The job runs with ASAN_OPTIONS=...:max_allocation_size_mb=<limit_mb>:allocator_may_return_null=1, so every malloc/realloc above the
+// limit returns null and the library throws std::bad_alloc (ASL_BAD_ALLOC). Judged: the operation that failed changed nothing (length,
+// element sequence, element accounting), the capacity the array believes it has is still backed by its block (ASan sees the next writes),
+// and the array keeps working - "no operation with in-range arguments reads or writes outside live storage", after a failed growth too.
+// The array always holds f(0..n-1), f(i) = (i*31+salt) % 997, so no model storage is needed (a std::vector model would hit the limit itself).
+template<class T>
+static void run_allocfail(vf::Ctx& c)
+{
+	Counted::reset();
+	Counted::live.reserve(1000000);
+	size_t limit = (size_t)c.opt->param("limit_mb", 1) << 20;
+	int salt = c.rng.range(0, 996);
+	int failures = 0, ops = 0;
+	uint64_t shape = 11;
+	{
+		Array<T> a;
+		int n = 0;   // model: a == f(0..n-1)
+		struct V {
+			static int f(int i, int salt) { return (int)(((long long)i * 31 + salt) % 997); }
+		};
+		auto verify = [&](const char* after, bool full) {
+			if (a.length() != n) c.fail(std::string("allocfail.length.") + after, vf::fmt("length()=%d, model %d", a.length(), n));
+			if (a.cap() < a.length()) c.fail("cap-below-length", after);
+			int step = full ? 1 : (n / 257 + 1);
+			for (int i = 0; i < n; i += step) if (E<T>::val(a[i]) != V::f(i, salt) || !E<T>::intact(a[i])) c.fail(std::string("allocfail.element.") + after, vf::fmt("index %d holds %d, model %d", i, E<T>::val(a[i]), V::f(i, salt)));
+			for (int i = n > 64 ? n - 64 : 0; i < n; i++) if (E<T>::val(a[i]) != V::f(i, salt) || !E<T>::intact(a[i])) c.fail(std::string("allocfail.element.") + after, vf::fmt("index %d holds %d, model %d", i, E<T>::val(a[i]), V::f(i, salt)));
+			if (Counted::err) c.fail(std::string("counted.") + Counted::err, after);
+		};
+		int start = c.rng.below(3);
+		shape = vf::mix(shape, start);
+		if (start == 1) { int r = c.rng.range(1, 5000); c.op(vf::fmt("reserve(%d)", r)); a.reserve(r); }
+		else if (start == 2) { int r = c.rng.range(1, 5000); c.op(vf::fmt("resize(%d) and assign", r)); a.resize(r); for (int i = 0; i < r; i++) a[i] = E<T>::mk(V::f(i, salt)); n = r; }
+		c.desc(vf::fmt("Array<%s>: grow by single appends until an allocation above %zu bytes fails, then keep using the array", E<T>::name(), limit));
+		// grow until the first failure (bounded: the block can never get past the limit)
+		size_t maxn = limit / sizeof(T) + 16;
+		bool failed = false;
+		while (!failed && (size_t)n <= maxn) {
+			try { a << E<T>::mk(V::f(n, salt)); n++; }
+			catch (std::bad_alloc&) { failed = true; failures++; c.count("allocfail.append-failed-at-capacity"); c.op(vf::fmt("append at length %d = cap %d: bad_alloc", n, a.cap())); }
+		}
+		if (!failed) { c.inconclusive("no-allocation-failure-injected"); return; }
+		int capAtFail = a.cap();
+		verify("after-failed-append", true);
+		int nsteps = c.rng.range(4, 14);
+		for (int st = 0; st < nsteps; st++) {
+			int w = c.rng.below(10);
+			shape = vf::mix(shape, w);
+			ops++;
+			try {
+				switch (w) {
+				case 0: case 1: c.op("append"); a << E<T>::mk(V::f(n, salt)); n++; c.count("allocfail.append-succeeded"); break;
+				case 2: { int k = c.rng.range(0, n); c.op(vf::fmt("insert(%d, x)", k)); a.insert(k, E<T>::mk(12345)); a.remove(k); c.count("allocfail.insert-succeeded"); } break;
+				case 3: { int k = c.rng.range(1, 40); if (k > n) k = n; c.op(vf::fmt("remove the last %d, append %d", k, k)); if (c.rng.chance(0.5)) a.resize(n - k); else a.remove(n - k, k); n -= k; verify("after-shrink", false);
+				          for (int i = 0; i < k; i++) { a << E<T>::mk(V::f(n, salt)); n++; } c.count("allocfail.refill-into-spare-capacity"); } break;
+				case 4: { int r = a.cap() + c.rng.range(1, 1000); c.op(vf::fmt("reserve(%d)", r)); a.reserve(r); c.count("allocfail.reserve-succeeded"); } break;
+				case 5: { int r = n + c.rng.range(1, 3) ; if (r <= a.cap()) r = a.cap() + 1; c.op(vf::fmt("resize(%d)", r)); a.resize(r); for (int i = n; i < r; i++) a[i] = E<T>::mk(V::f(i, salt)); n = r; c.count("allocfail.resize-succeeded"); } break;
+				case 6: { c.op("b = a.clone()"); Array<T> b = a.clone(); if (b.length() != n) c.fail("allocfail.clone.length", ""); for (int i = 0; i < n; i += n / 97 + 1) if (E<T>::val(b[i]) != V::f(i, salt)) c.fail("allocfail.clone.element", vf::fmt("index %d", i)); c.count("allocfail.clone-succeeded"); } break;
+				case 7: { c.op("b = a | a"); Array<T> b = a | a; if (b.length() != 2 * n) c.fail("allocfail.concat.length", ""); c.count("allocfail.concat-succeeded"); } break;
+				case 8: { c.op("a.append(a)"); int n0 = n; a.append(a); n = 2 * n0; c.count("allocfail.self-append-succeeded"); a.resize(n0); n = n0; } break;
+				case 9: { c.op("h = a (second handle), dropped"); Array<T> h = a; if (h.length() != n) c.fail("allocfail.handle.length", ""); } break;
+				}
+			}
+			catch (std::bad_alloc&) {
+				failures++;
+				static const char* W[] = {"append", "append", "insert", "refill", "reserve", "resize", "clone", "concat", "self-append", "handle"};
+				c.count((std::string("allocfail.bad_alloc-in-") + W[w]).c_str());
+				if (w == 5 || w == 8) { /* resize/append(a) may fail in reserve(): nothing changed */ }
+			}
+			verify("after-step", false);
+		}
+		verify("at-end", true);
+		c.count(start == 0 ? "allocfail.first-failure-on-the-doubling-chain-from-empty" : start == 1 ? "allocfail.first-failure-after-reserve(r)-then-doubling" : "allocfail.first-failure-after-resize(r)-then-doubling");
+		c.evals((uint64_t)ops);
+		c.distinct(vf::mix(vf::mix(shape, (uint64_t)capAtFail), vf::fnv(E<T>::name())));
+		if (c.want_sample()) c.sample(vf::fmt("Array<%s>: first bad_alloc at length=cap=%d, %d allocation failures in the case, final length %d: ", E<T>::name(), capAtFail, failures, n) + c.curdesc().substr(0, 400));
+	}
+	if (Counted::err) c.fail(std::string("counted.") + Counted::err, "at teardown");
+	if (Counted::nlive != 0) c.fail("counted.elements-alive-after-last-handle-dropped", vf::fmt("%d elements never destroyed", Counted::nlive));
+}
+
 int main(int argc, char** argv)
 {
 	vf::Runner R;
@@ -666,6 +747,9 @@ int main(int argc, char** argv)
 	R.add("selfref_string", selfref<String>, "");
 	R.add("shared_growth_int", shared<int>, "stratum B: growth while another handle is live (known finding)");
 	R.add("shared_growth_string", shared<String>, "");
+	R.add("allocfail_int", run_allocfail<int>, "growth whose allocation fails (small ASan allocation limit): the array stays consistent and usable");
+	R.add("allocfail_counted", run_allocfail<Counted>, "");
+	R.add("allocfail_string", run_allocfail<String>, "");
 	R.add("sq_int", run_sq<int>, "Stack and Queue");
 	R.add("sq_counted", run_sq<Counted>, "");
 	R.add("sq_string", run_sq<String>, "");
